@@ -262,9 +262,9 @@ fn interpret(c: &IterCase, strict_only: bool, st: &mut Stats) -> Result<Outcome,
                     }
                 }
                 cands = next_cands;
-                if was_pending_everywhere && !ret {
-                    diverge!("remove_move({mv}) returned false although the move was still pending");
-                }
+                // the boolean result of remove_move is documented nowhere and the property does not
+                // mention it: it is recorded in the trace but not asserted
+                let _ = was_pending_everywhere;
                 if hits_promotions {
                     classes.push("remove_move aimed at a promotion destination");
                 }
@@ -436,7 +436,7 @@ pub const C10: CheckDef = CheckDef {
     assumptions: &[
         "order of yielded moves is unspecified and never compared",
         "what widening a generation-time mask should reveal is not stated by the property: after legals_masked(m) every later mask is a subset of m",
-        "remove_move's boolean result is only required to be true when the move was still pending",
+        "remove_move's boolean result is unspecified and not asserted",
         "oracle: refchess legal-move set",
     ],
     exhaustive: |_| false,
